@@ -332,7 +332,16 @@ func (a *List) M__rmul__(other Object) (Object, error) {
 }
 
 func (a *List) M__imul__(other Object) (Object, error) {
-	return a.M__mul__(other)
+	res, err := a.M__mul__(other)
+	if err != nil {
+		return nil, err
+	}
+	if l, ok := res.(*List); ok {
+		// in place: every alias of the list must see the change
+		a.Items = l.Items
+		return a, nil
+	}
+	return res, nil
 }
 
 // Check interface is satisfied
